@@ -46,8 +46,8 @@ class Cmp(Part):
                             "INVARIANT ScanIsDefinition\nINVARIANT ScanOpIsDefinition\nINVARIANT FlagsSound\nINVARIANT EpsAgrees\n"
                             "CHECK_DEADLOCK FALSE\n", ctx.scratch, workers=4, coverage=True, name="Dominance-mc-marks"))
         # TLAPS side-car: the same laws for arbitrary index sets and integer costs (not the deciding mechanism)
-        self.proved = tlc.tlapm("proofs/DominanceLaws.tla", ctx.scratch)
-        ctx.notes.append("tlapm proofs/DominanceLaws.tla: %d obligations proved (irreflexive, antisymmetric, transitive, marker laws)" % self.proved)
+        self.proved = tlc.sidecar(ctx, "tlapm proofs/DominanceLaws.tla (irreflexive, antisymmetric, transitive, marker laws)",
+                                  tlc.tlapm, "proofs/DominanceLaws.tla", ctx.scratch)
         return runs
 
     def cases(self, ctx):
